@@ -6,6 +6,7 @@ import (
 	"encoding/binary"
 	"errors"
 	"io"
+	"math"
 	"sync"
 	"sync/atomic"
 
@@ -130,6 +131,12 @@ func (j *joiner) readAtOffset(b, data []byte, cur, subTrieSize, off, bufferOffse
 		return
 	}
 
+	// an intermediate chunk holds a whole number of references
+	if len(data) == 0 || len(data)%j.refLength != 0 {
+		eg.Go(func() error { return ErrMalformedTrie })
+		return
+	}
+
 	for cursor := 0; cursor < len(data); cursor += j.refLength {
 		if bytesToRead == 0 {
 			break
@@ -203,6 +210,10 @@ func subtrieSection(data []byte, startIdx, refLen int, subtrieSize int64) int64 
 		if whatsLeft <= branchSize {
 			break
 		}
+		// a span no honest tree can have: stop before the multiplication overflows
+		if branchSize > math.MaxInt64/branching {
+			break
+		}
 		branchSize *= branching
 	}
 
@@ -266,6 +277,11 @@ func (j *joiner) processChunkAddresses(ctx context.Context, fn boson.AddressIter
 	case <-ctx.Done():
 		return ctx.Err()
 	default:
+	}
+
+	// an intermediate chunk holds a whole number of references
+	if len(data) == 0 || len(data)%j.refLength != 0 {
+		return ErrMalformedTrie
 	}
 
 	eg, ectx := errgroup.WithContext(ctx)
